@@ -17,7 +17,7 @@ RULE = ("value contract on SigningKey.sign_digest(k=)/sign_number(k=)/from_secre
         "(r=0/s=0 occur naturally); production: boundary d,k x every digest length 1..3*baselen+1 x bit patterns, constructed "
         "s=0 digests. non-trivial key = (curve, digest length - baselen, pattern, d class, k class, truncate flag, outcome)")
 ASSUMPTIONS = ["reference signer vf/ref/ecdsa_ref.py", "with allow_truncate=False and a digest of <= baselen bytes but more bits than n, e is unspecified by the statement and not judged here"]
-REQUIRED = {"quick": ["sig", "rszero.r", "rszero.s", "baddigest", "pubkey", "bad_secexp", "prod.s_zero_constructed", "sign_number"]}
+REQUIRED = {"quick": ["sig", "rszero.r", "rszero.s", "baddigest", "baddigest.other_signers", "pubkey", "bad_secexp", "prod.s_zero_constructed", "sign_number"]}
 EXHAUSTIVE = {"quick": ["6 toy prime-order curves (n<=23): all d, all k, all e in a 1-byte digest sample of 24 values"],
               "thorough": ["16 toy prime-order curves (n<=61): all d, all k, 64 one-byte digests + 2-byte digests"]}
 
@@ -95,6 +95,23 @@ def one(ctx, sk, curve, dom, d, k, digest, at, cls_hint, keybase, via="sign_dige
         outcome = "raised %s: %s" % (type(ex).__name__, ex)
     if want_exc == "BadDigestError":
         cls = "baddigest"
+        # the clause names no entry point: the other signers refuse the same digest when truncation is off (their default or explicit)
+        import hashlib as _hl
+        others = (("sign_digest_deterministic", lambda: sk.sign_digest_deterministic(dig_arg, hashfunc=_hl.sha256)),
+                  ("sign_digest_deterministic_explicit", lambda: sk.sign_digest_deterministic(dig_arg, hashfunc=_hl.sha1, allow_truncate=gen.boolish(False, _BL["i"]), extra_entropy=b"x")),
+                  ("sign_digest_default_nonce", lambda: sk.sign_digest(dig_arg)),
+                  ("sign_digest_entropy", lambda: sk.sign_digest(dig_arg, entropy=lambda nb: b"\x33" * nb, allow_truncate=gen.boolish(False, _BL["i"]))))
+        nm_o, call_o = others[_BL["i"] % len(others)]
+        ctx.case("baddigest.other_signers", key="%s|%s" % (keybase.split("|")[0], nm_o))
+        try:
+            r_o = call_o()
+            ctx.violation("baddigest_not_raised", "%s: %s signed a %d-byte digest (order is %d bytes) with truncation off: %r" % (curve.name, nm_o, len(digest), L, r_o),
+                          dict(curve=curve.name, d=d, digest=digest, via=nm_o))
+        except BadDigestError:
+            pass
+        except Exception as ex:
+            ctx.violation("signer_raises", "%s: %s raised %s: %s for an over-long digest with truncation off" % (curve.name, nm_o, type(ex).__name__, ex),
+                          dict(curve=curve.name, d=d, digest=digest, via=nm_o))
     elif want == "r0":
         cls = "rszero.r"
     elif want == "s0":
